@@ -33,8 +33,13 @@ func (k Known) Matches(class, reason string) bool {
 	} else if k.Class != class {
 		return false
 	}
-	if k.Match != "" && !strings.Contains(reason, k.Match) {
-		return false
+	// match=a&&b : every part must occur in the reason
+	if k.Match != "" {
+		for _, part := range strings.Split(k.Match, "&&") {
+			if !strings.Contains(reason, part) {
+				return false
+			}
+		}
 	}
 	return true
 }
